@@ -42,6 +42,20 @@ theorem bal_map_flatten {α} {f : α → Toks} {l : List α} (h : ∀ a, Bal (f 
 
 theorem bal_comma : Bal comma := fun _ => rfl
 
+theorem bal_wrapOperand (e : Expr) {t : Toks} (h : Bal t) : Bal (wrapOperand e t) := by
+  intro d; unfold wrapOperand; split
+  · simp [bal_append, bal, lpar, rpar, h (d + 1)]
+  · exact h d
+
+theorem bal_insertAt {k : Nat} {x : Toks} {l : List Toks} (hx : Bal x) (hl : ∀ t ∈ l, Bal t) :
+    ∀ t ∈ insertAt k x l, Bal t := by
+  intro t ht
+  simp only [insertAt, List.mem_append, List.mem_cons] at ht
+  rcases ht with ht | rfl | ht
+  · exact hl t (List.mem_of_mem_take ht)
+  · exact hx
+  · exact hl t (List.mem_of_mem_drop ht)
+
 theorem bal_argTok (a : Str) : Bal (argTok a) := by
   intro d; unfold argTok; split <;> rfl
 
@@ -53,8 +67,8 @@ theorem bal_optArgTok (a : Option Str) : Bal (optArgTok a) := by
 /-- unfold one step of the printer in a hypothesis `… = some t` -/
 macro "punfold" h:ident : tactic =>
   `(tactic| simp only [print, printOpt, printList, printOptList, printDict, printDictKeys, printDictValues, printCmp,
-      printKeywords, printKeywordsGeneric, printComps, printDefaults, printSig, printArgsGeneric,
-      bind, Option.bind_eq_some_iff, pure, Option.some.injEq, exists_and_left, exists_eq_left'] at $h:ident)
+      printKeywords, printKeywordsGeneric, printComps, printDefaults, printSig, printArgsGeneric, printOps,
+      printKwDefaults, bind, Option.bind_eq_some_iff, pure, Option.some.injEq, exists_and_left, exists_eq_left'] at $h:ident)
 
 @[simp] theorem bal_lpar (d : Nat) (r : Toks) : bal d (lpar :: r) = bal (d + 1) r := rfl
 @[simp] theorem bal_rpar (d : Nat) (r : Toks) : bal (d + 1) (rpar :: r) = bal d r := rfl
@@ -70,11 +84,11 @@ theorem bal_print : ∀ (e : Expr) (t : Toks), print e = some t → Bal t
   | .const _ r, t, h => by punfold h; subst h; split <;> (intro d; rfl)
   | .attribute v a, t, h => by
       punfold h; obtain ⟨tv, hv, rfl⟩ := h
-      have := bal_print v tv hv
+      have := bal_print v tv hv; have := bal_wrapOperand v this
       split <;> bal_close
   | .subscript v s, t, h => by
       punfold h; obtain ⟨tv, hv, ts, hs, rfl⟩ := h
-      have := bal_print v tv hv; have := bal_print s ts hs
+      have := bal_print v tv hv; have := bal_wrapOperand v this; have := bal_print s ts hs
       split <;> bal_close
   | .slice lo hi none, t, h => by
       punfold h; obtain ⟨tl, hl, th, hh, h⟩ := h
@@ -94,7 +108,7 @@ theorem bal_print : ∀ (e : Expr) (t : Toks), print e = some t → Bal t
         have := bal_print s ts hs; bal_close
   | .call f args kws, t, h => by
       punfold h; obtain ⟨tf, hf, ta, ha, h⟩ := h
-      have := bal_print f tf hf; have ha' := bal_printList args ta ha
+      have := bal_print f tf hf; have := bal_wrapOperand f this; have ha' := bal_printList args ta ha
       split at h
       · punfold h; obtain ⟨tk, hk, rfl⟩ := h
         have hk' := bal_printKeywords kws tk hk
@@ -111,21 +125,21 @@ theorem bal_print : ∀ (e : Expr) (t : Toks), print e = some t → Bal t
       punfold h
       split at h
       · punfold h; obtain ⟨s, _, te, he, rfl⟩ := h
-        have := bal_print e te he
+        have := bal_wrapOperand e (bal_print e te he)
         split <;> bal_close
       · exact bal_print e t h
   | .binOp l op r, t, h => by
       punfold h
       split at h
       · punfold h; obtain ⟨tl, hl, s, _, tr, hr, rfl⟩ := h
-        have := bal_print l tl hl; have := bal_print r tr hr; bal_close
+        have := bal_wrapOperand l (bal_print l tl hl); have := bal_wrapOperand r (bal_print r tr hr); bal_close
       · punfold h; obtain ⟨tl, hl, tr, hr, rfl⟩ := h
         have := bal_print l tl hl; have := bal_print r tr hr; bal_close
   | .boolOp op vs, t, h => by
       punfold h
       split at h
       · punfold h; obtain ⟨tv, hv, h⟩ := h
-        have hv' := bal_printList vs tv hv
+        have hv' := bal_printOps vs tv hv
         split at h
         · punfold h; subst h; have := bal_flatten hv'; bal_close
         · punfold h; obtain ⟨s, _, rfl⟩ := h
@@ -137,14 +151,15 @@ theorem bal_print : ∀ (e : Expr) (t : Toks), print e = some t → Bal t
       punfold h
       split at h
       · punfold h; obtain ⟨tl, hl, tc, hc, rfl⟩ := h
-        have := bal_print l tl hl; have := bal_printCmp ops cs tc hc; bal_close
+        have := bal_wrapOperand l (bal_print l tl hl); have := bal_printCmp ops cs tc hc; bal_close
       · punfold h; obtain ⟨tl, hl, tc, hc, rfl⟩ := h
         have := bal_print l tl hl; have := bal_flatten (bal_printList cs tc hc); bal_close
   | .ifExp c b o, t, h => by
       punfold h
       split at h
       · punfold h; obtain ⟨tb, hb, tt, ht, to, ho, rfl⟩ := h
-        have := bal_print b tb hb; have := bal_print c tt ht; have := bal_print o to ho; bal_close
+        have := bal_wrapOperand b (bal_print b tb hb); have := bal_wrapOperand c (bal_print c tt ht)
+        have := bal_print o to ho; bal_close
       · punfold h; obtain ⟨tt, ht, tb, hb, to, ho, rfl⟩ := h
         have := bal_print b tb hb; have := bal_print c tt ht; have := bal_print o to ho; bal_close
   | .lambda a b, t, h => by
@@ -211,7 +226,7 @@ theorem bal_print : ∀ (e : Expr) (t : Toks), print e = some t → Bal t
       split <;> bal_close
   | .starred v, t, h => by
       punfold h; obtain ⟨tv, hv, rfl⟩ := h
-      have := bal_print v tv hv
+      have := bal_print v tv hv; have := bal_wrapOperand v this
       split <;> bal_close
   | .namedExpr a v, t, h => by
       punfold h; obtain ⟨ta, ha, tv, hv, rfl⟩ := h
@@ -247,6 +262,14 @@ theorem bal_printList : ∀ (es : List Expr) (ts : List Toks), printList es = so
       rcases List.mem_cons.mp hx with rfl | hx
       · exact bal_print e _ ht
       · exact bal_printList es tr hr x hx
+theorem bal_printOps : ∀ (es : List Expr) (ts : List Toks), printOps es = some ts → ∀ t ∈ ts, Bal t
+  | [], ts, h => by punfold h; subst h; simp
+  | e :: es, ts, h => by
+      punfold h; obtain ⟨t, ht, tr, hr, rfl⟩ := h
+      intro x hx
+      rcases List.mem_cons.mp hx with rfl | hx
+      · exact bal_wrapOperand e (bal_print e _ ht)
+      · exact bal_printOps es tr hr x hx
 theorem bal_printOptList : ∀ (es : List (Option Expr)) (t : Toks), printOptList es = some t → Bal t
   | [], t, h => by punfold h; subst h; intro d; rfl
   | none :: es, t, h => by punfold h; exact bal_printOptList es t h
@@ -255,7 +278,12 @@ theorem bal_printOptList : ∀ (es : List (Option Expr)) (t : Toks), printOptLis
       have := bal_print e a ha; have := bal_printOptList es b hb; bal_close
 theorem bal_printDict : ∀ (items : List DictItem) (ts : List Toks), printDict items = some ts → ∀ t ∈ ts, Bal t
   | [], ts, h => by punfold h; subst h; simp
-  | .mk none v :: r, ts, h => by punfold h; simp at h
+  | .mk none v :: r, ts, h => by
+      punfold h; obtain ⟨tv, hv, tr, hr, rfl⟩ := h
+      intro x hx
+      rcases List.mem_cons.mp hx with rfl | hx
+      · have := bal_wrapOperand v (bal_print v tv hv); bal_close
+      · exact bal_printDict r tr hr x hx
   | .mk (some k) v :: r, ts, h => by
       punfold h; obtain ⟨tk, hk, tv, hv, tr, hr, rfl⟩ := h
       intro x hx
@@ -278,14 +306,14 @@ theorem bal_printCmp : ∀ (ops : List CmpOp) (cs : List Expr) (t : Toks), print
   | [], _ :: _, t, h => by punfold h; subst h; intro d; rfl
   | op :: ops, c :: cs, t, h => by
       punfold h; obtain ⟨s, _, tc, hc, tr, hr, rfl⟩ := h
-      have := bal_print c tc hc; have := bal_printCmp ops cs tr hr; bal_close
+      have := bal_wrapOperand c (bal_print c tc hc); have := bal_printCmp ops cs tr hr; bal_close
 theorem bal_printKeywords : ∀ (ks : List Keyword) (ts : List Toks), printKeywords ks = some ts → ∀ t ∈ ts, Bal t
   | [], ts, h => by punfold h; subst h; simp
   | .mk arg v :: ks, ts, h => by
-      punfold h; obtain ⟨a, _, tv, hv, tr, hr, rfl⟩ := h
+      punfold h; obtain ⟨tv, hv, tr, hr, rfl⟩ := h
       intro x hx
       rcases List.mem_cons.mp hx with rfl | hx
-      · have := bal_print v tv hv; bal_close
+      · have := bal_print v tv hv; cases arg <;> bal_close
       · exact bal_printKeywords ks tr hr x hx
 theorem bal_printKeywordsGeneric : ∀ (ks : List Keyword) (t : Toks), printKeywordsGeneric ks = some t → Bal t
   | [], t, h => by punfold h; subst h; intro d; rfl
@@ -295,16 +323,22 @@ theorem bal_printKeywordsGeneric : ∀ (ks : List Keyword) (t : Toks), printKeyw
 theorem bal_printComps : ∀ (gs : List Comp) (t : Toks), printComps gs = some t → Bal t
   | [], t, h => by punfold h; subst h; intro d; rfl
   | .mk target iter ifs _ :: gs, t, h => by
-      punfold h; obtain ⟨tt, ht, ti, hi, tf, hf, tr, hr, rfl⟩ := h
+      punfold h; obtain ⟨tt, ht, ti, hi, h⟩ := h
       have := bal_print target tt ht; have := bal_print iter ti hi
-      have hf' := bal_printList ifs tf hf
-      have := bal_printComps gs tr hr
-      have := bal_flatten hf'
-      have : Bal (tf.map fun c => sp :: Tok.leaf ['i', 'f'] :: sp :: c).flatten := by
-        apply bal_flatten
-        intro x hx; simp only [List.mem_map] at hx; obtain ⟨c, hc, rfl⟩ := hx
-        have := hf' c hc; bal_close
-      split <;> bal_close
+      split at h
+      · punfold h; obtain ⟨tf, hf, tr, hr, rfl⟩ := h
+        have hf' := bal_printOps ifs tf hf
+        have := bal_printComps gs tr hr
+        have := bal_wrapOperand iter (bal_print iter ti hi)
+        have : Bal (tf.map fun c => sp :: Tok.leaf ['i', 'f'] :: sp :: c).flatten := by
+          apply bal_flatten
+          intro x hx; simp only [List.mem_map] at hx; obtain ⟨c, hc, rfl⟩ := hx
+          have := hf' c hc; bal_close
+        bal_close
+      · punfold h; obtain ⟨tf, hf, tr, hr, rfl⟩ := h
+        have := bal_flatten (bal_printList ifs tf hf)
+        have := bal_printComps gs tr hr
+        bal_close
 theorem bal_printDefaults : ∀ (as : List Str) (ds : List Expr) (ts : List Toks),
     printDefaults as ds = some ts → ∀ t ∈ ts, Bal t
   | _, [], ts, h => by punfold h; subst h; simp
@@ -315,16 +349,47 @@ theorem bal_printDefaults : ∀ (as : List Str) (ds : List Expr) (ts : List Toks
       rcases List.mem_cons.mp hx with rfl | hx
       · have := bal_print d td hd; have := bal_argTok a; bal_close
       · exact bal_printDefaults as ds tr hr x hx
-theorem bal_printSig : ∀ (a : Args) (ts : List Toks), printSig a = some ts → ∀ t ∈ ts, Bal t
-  | .mk _ args vararg _ _ kwarg defaults, ts, h => by
-      punfold h; obtain ⟨td, hd, rfl⟩ := h
-      have hd' := bal_printDefaults _ defaults td hd
+theorem bal_printKwDefaults : ∀ (as : List Str) (ds : List (Option Expr)) (ts : List Toks),
+    printKwDefaults as ds = some ts → ∀ t ∈ ts, Bal t
+  | _, [], ts, h => by punfold h; subst h; simp
+  | [], _ :: _, ts, h => by punfold h; subst h; simp
+  | a :: as, none :: ds, ts, h => by
+      punfold h; obtain ⟨tr, hr, rfl⟩ := h
       intro x hx
-      simp only [List.mem_append, List.mem_map] at hx
-      rcases hx with ((⟨a, _, rfl⟩ | hx) | hx) | hx
+      rcases List.mem_cons.mp hx with rfl | hx
       · exact bal_argTok a
-      · exact hd' x hx
-      · cases vararg <;> simp at hx; subst hx; intro d; rfl
+      · exact bal_printKwDefaults as ds tr hr x hx
+  | a :: as, some d :: ds, ts, h => by
+      punfold h; obtain ⟨td, hd, tr, hr, rfl⟩ := h
+      intro x hx
+      rcases List.mem_cons.mp hx with rfl | hx
+      · have := bal_print d td hd; have := bal_argTok a; bal_close
+      · exact bal_printKwDefaults as ds tr hr x hx
+theorem bal_printSig : ∀ (a : Args) (ts : List Toks), printSig a = some ts → ∀ t ∈ ts, Bal t
+  | .mk posonly args vararg kwonly kwDefaults kwarg defaults, ts, h => by
+      punfold h; obtain ⟨td, hd, tk, hk, rfl⟩ := h
+      have hd' := bal_printDefaults _ defaults td hd
+      have hk' := bal_printKwDefaults kwonly kwDefaults tk hk
+      have hitems : ∀ t ∈ (List.take ((posonly ++ args).length - defaults.length) (posonly ++ args)).map argTok ++ td,
+          Bal t := by
+        intro x hx
+        rcases List.mem_append.mp hx with hx | hx
+        · simp only [List.mem_map] at hx; obtain ⟨a, _, rfl⟩ := hx; exact bal_argTok a
+        · exact hd' x hx
+      intro x hx
+      simp only [List.mem_append] at hx
+      rcases hx with ((hx | hx) | hx) | hx
+      · split at hx
+        · exact hitems x hx
+        · exact bal_insertAt (x := [Tok.leaf ['/']]) (fun _ => rfl) hitems x hx
+      · cases vararg with
+        | none =>
+          simp only [] at hx
+          split at hx
+          · simp at hx
+          · simp only [List.mem_singleton] at hx; subst hx; intro d; rfl
+        | some v => simp at hx; subst hx; intro d; rfl
+      · exact hk' x hx
       · cases kwarg <;> simp at hx; subst hx; intro d; rfl
 theorem bal_printArgsGeneric : ∀ (a : Args) (t : Toks), printArgsGeneric a = some t → Bal t
   | .mk posonly args vararg kwonly kwDefaults kwarg defaults, t, h => by
